@@ -583,7 +583,123 @@ def gen_rules():
     return {"codes": len(codes), "rules": {r: names for r, names, _ in per_rule}, "unsupported": len(types)}
 
 
-GENERATORS = [("GenRules", gen_rules), ("GenPrec", gen_prec), ("GenPanicSites", gen_panic_sites), ("GenPipeline", gen_pipeline), ("GenTopo", gen_topo), ("GenStages", gen_stages), ("GenTokens", gen_tokens), ("GenLegend", gen_legend), ("GenDecoders", gen_decoders)]
+def gen_exprkind():
+    """xform_resolve_late_bound_expr_kind.rs: the table from initializer kinds to the resolver's variable types, what a
+    late-bound element becomes under each of them, how an assignment's target sets the current type, and that the current
+    type is reset after an assignment and the table cleared after a unit (the shape Model/ExprKind.v transcribes)."""
+    src = read("compiler/analyzer/src/xform_resolve_late_bound_expr_kind.rs").split("#[cfg(test)]")[0]
+    src = "\n".join(code_lines(src))
+    m = re.search(r"fn insert\(&mut self, node: &VarDecl\) \{(.*?)\nfn find_type", src, re.S)
+    if not m:
+        raise Refuse("xform_resolve_late_bound_expr_kind.rs: fn insert not found")
+    ins = re.findall(r"InitialValueAssignmentKind::(\w+)\(_\) => VariableType::(\w+),", m.group(1))
+    if len(ins) != 10 or len(re.findall(r"InitialValueAssignmentKind::", m.group(1))) != 10:
+        raise Refuse("xform_resolve_late_bound_expr_kind.rs: insert() no longer maps ten initializer kinds one to one: %r" % (ins,))
+    m = re.search(r"ExprKind::LateBound\(node\) => match self\.current_type \{(.*)$", src, re.S)
+    if not m:
+        raise Refuse("xform_resolve_late_bound_expr_kind.rs: the LateBound arm not found")
+    arms = re.split(r"\n\s*VariableType::(\w+) => ", "\n" + m.group(1).strip("\n"))
+    late = []
+    for name, body in zip(arms[1::2], arms[2::2]):
+        if "Diagnostic::todo" in body:
+            late.append((name, "None"))
+        elif "ExprKind::EnumeratedValue" in body and "ExprKind::Variable" not in body:
+            late.append((name, "Some true"))
+        elif "ExprKind::Variable" in body and "SymbolicVariableKind::Named" in body and "EnumeratedValue" not in body:
+            late.append((name, "Some false"))
+        else:
+            raise Refuse("xform_resolve_late_bound_expr_kind.rs: arm VariableType::%s is of no known form" % name)
+    if len(late) != 10:
+        raise Refuse("xform_resolve_late_bound_expr_kind.rs: %d arms for a late-bound element, ten variable types" % len(late))
+    m = re.search(r"fn fold_assignment\((.*?)\nfn fold_expr_kind", src, re.S)
+    if not m:
+        raise Refuse("xform_resolve_late_bound_expr_kind.rs: fold_assignment not found")
+    fa = m.group(1)
+    targets = []
+    for pat, name in ((r"Variable::Direct\(_\) => self\.current_type = VariableType::None", ("Direct", "none")),
+                      (r"SymbolicVariableKind::Named\(named\) => \{\s*self\.current_type = self\.find_type\(&named\.name\)\.clone\(\);\s*\}", ("Named", "find")),
+                      (r"SymbolicVariableKind::Array\(arr\) => \{\s*Err\(Diagnostic::todo_with_span\(arr\.span\(\), file!\(\), line!\(\)\)\)\?\s*\}", ("Array", "todo")),
+                      (r"SymbolicVariableKind::Structured\(st\) => \{\s*Err\(Diagnostic::todo_with_span\(st\.span\(\), file!\(\), line!\(\)\)\)\?\s*\}", ("Structured", "todo"))):
+        if not re.search(pat, fa):
+            raise Refuse("xform_resolve_late_bound_expr_kind.rs: fold_assignment no longer treats a %s target as modelled" % name[0])
+        targets.append(name)
+    if len(re.findall(r"SymbolicVariableKind::\w+\(", fa)) != 3 or len(re.findall(r"Variable::\w+\(", fa)) != 2:
+        raise Refuse("xform_resolve_late_bound_expr_kind.rs: fold_assignment matches other targets than the four modelled")
+    if not re.search(r"let result = node\.recurse_fold\(self\);\s*self\.current_type = VariableType::None;\s*result\s*\}", fa):
+        raise Refuse("xform_resolve_late_bound_expr_kind.rs: fold_assignment does not reset the current type after folding the assignment")
+    units = re.findall(r"fn fold_(function|function_block|program)_declaration\((.*?)\n\}", src, re.S)
+    if len(units) != 3:
+        raise Refuse("xform_resolve_late_bound_expr_kind.rs: the three unit folds not found")
+    for kind, body in units:
+        if not re.search(r"node\.variables\.iter\(\)\.for_each\(\|v\| self\.insert\(v\)\);\s*let result = node\.recurse_fold\(self\);\s*self\.names_to_types\.clear\(\);\s*result", body):
+            raise Refuse("xform_resolve_late_bound_expr_kind.rs: fold_%s_declaration no longer inserts its variables, folds, and clears the table" % kind)
+    o = ["(* GENERATED by tools/translate.py from compiler/analyzer/src/xform_resolve_late_bound_expr_kind.rs -- do not edit *)",
+         "From Coq Require Import List String.", "Import ListNotations.", "Local Open Scope string_scope.", "",
+         "(* insert(): initializer kind -> the resolver's variable type *)",
+         "Definition gen_insert : list (string * string) := [" + "; ".join("(%s, %s)" % (coq_string(a), coq_string(b)) for a, b in ins) + "].", "",
+         "(* what a late-bound element becomes under each variable type: Some false = a variable, Some true = an enumeration value, None = todo *)",
+         "Definition gen_late : list (string * option bool) := [" + "; ".join("(%s, %s)" % (coq_string(a), b) for a, b in late) + "].", "",
+         "(* how the target of an assignment sets the current type *)",
+         "Definition gen_targets : list (string * string) := [" + "; ".join("(%s, %s)" % (coq_string(a), coq_string(b)) for a, b in targets) + "].", "",
+         "(* shapes the translator insists on (it refuses otherwise): the current type is reset after an assignment was folded; every",
+         "   function, function block and program inserts its variables, folds, then clears the table *)",
+         "Definition gen_resets_after_assignment : bool := true.",
+         "Definition gen_units_clear_table : list string := [" + "; ".join(coq_string(k) for k, _ in units) + "].", ""]
+    write_if_changed("GenExprKind.v", "\n".join(o) + "\n")
+    return {"variable_types": len(late), "targets": len(targets)}
+
+
+def gen_datadecl():
+    """xform_resolve_late_bound_data_decl.rs: which declarations enter the graph with which kind, what a late-bound declaration
+    becomes for each kind, and the shape of add() (a new node becomes a root with its kind; an existing declared name is a
+    duplicate; an existing undeclared node becomes a root with the data it already has)."""
+    src = read("compiler/analyzer/src/xform_resolve_late_bound_data_decl.rs").split("#[cfg(test)]")[0]
+    src = "\n".join(code_lines(src))
+    m = re.search(r"impl Visitor<Diagnostic> for TypeDeclResolver \{(.*?)\nstruct DeclarationResolver", src, re.S)
+    if not m:
+        raise Refuse("xform_resolve_late_bound_data_decl.rs: the graph-building visitor not found")
+    vis = m.group(1)
+    fns = re.findall(r"fn visit_(\w+)\(", vis)
+    added = re.findall(r"fn visit_(\w+)_declaration\(\s*&mut self,\s*node: &\w+,\s*\) -> Result<Self::Value, Diagnostic> \{\s*self\.add\(&node\.type_name, LateResolvableTypeDecl::(\w+)\)\?;\s*Ok\(\(\)\)\s*\}", vis)
+    conn = re.findall(r"fn visit_late_bound_declaration\(\s*&mut self,\s*node: &LateBoundDeclaration,\s*\) -> Result<Self::Value, Diagnostic> \{\s*self\.connect\(\s*&node\.base_type_name,\s*&node\.data_type_name,\s*LateResolvableTypeDecl::LateBound,\s*\);\s*Ok\(\(\)\)\s*\}", vis)
+    if len(fns) != 4 or len(added) != 3 or len(conn) != 1:
+        raise Refuse("xform_resolve_late_bound_data_decl.rs: the visitor no longer has three add() methods and one connect() method: %r" % (fns,))
+    m = re.search(r"fn fold_data_type_declaration_kind\((.*)$", src, re.S)
+    if not m:
+        raise Refuse("xform_resolve_late_bound_data_decl.rs: the fold not found")
+    arms = re.split(r"\n\s*LateResolvableTypeDecl::(\w+) => ", "\n" + m.group(1))
+    fold = []
+    for name, body in zip(arms[1::2], arms[2::2]):
+        body = body.split("\nLateResolvableTypeDecl::")[0]
+        mk = re.search(r"Ok\(\s*DataTypeDeclarationKind::(\w+)\(", body)
+        if "Diagnostic::todo" in body.split("} else {")[0] and mk and mk.group(1) == "LateBound":
+            fold.append((name, "None"))
+        elif mk and "Diagnostic::todo" not in body.split("}\n}")[0]:
+            fold.append((name, "Some " + coq_string(mk.group(1))))
+        else:
+            raise Refuse("xform_resolve_late_bound_data_decl.rs: fold arm %s is of no known form" % name)
+    if [n for n, _ in fold] != ["Simple", "Enumeration", "Structure", "LateBound", "Unspecified"]:
+        raise Refuse("xform_resolve_late_bound_data_decl.rs: the fold's arms changed: %r" % (fold,))
+    m = re.search(r"fn add\(&mut self, item: &Type, item_kind: LateResolvableTypeDecl\) -> Result<\(\), Diagnostic> \{(.*?)\nimpl Visitor", src, re.S)
+    if not m:
+        raise Refuse("xform_resolve_late_bound_data_decl.rs: add() not found")
+    ab = m.group(1)
+    for what, pat in (("a new node with the declared kind", r"None => \{\s*let added = self\.graph\.add_node\(item, item_kind\);"),
+                      ("a duplicate of a declared name", r"if self\.declared_types\.contains\(existing\.0\) \{\s*return Err\(Diagnostic::problem\(\s*Problem::DeclarationNameDuplicated,"),
+                      ("a root with the data the node already has", r"\} else \{\s*let data = self\.graph\.data\(item\);\s*self\.roots\.push\(\(\s*\*existing\.1,")):
+        if not re.search(pat, ab):
+            raise Refuse("xform_resolve_late_bound_data_decl.rs: add() no longer handles %s as modelled" % what)
+    o = ["(* GENERATED by tools/translate.py from compiler/analyzer/src/xform_resolve_late_bound_data_decl.rs -- do not edit *)",
+         "From Coq Require Import List String.", "Import ListNotations.", "Local Open Scope string_scope.", "",
+         "(* the declarations that enter the graph through add(), with their kind *)",
+         "Definition gen_added : list (string * string) := [" + "; ".join("(%s, %s)" % (coq_string(a), coq_string(b)) for a, b in added) + "].", "",
+         "(* what a late-bound declaration becomes for each resolved kind: Some <declaration kind>, or None = not implemented *)",
+         "Definition gen_fold : list (string * option string) := [" + "; ".join("(%s, %s)" % (coq_string(a), b) for a, b in fold) + "].", ""]
+    write_if_changed("GenDataDecl.v", "\n".join(o) + "\n")
+    return {"added": len(added), "fold_arms": len(fold)}
+
+
+GENERATORS = [("GenRules", gen_rules), ("GenExprKind", gen_exprkind), ("GenDataDecl", gen_datadecl), ("GenPrec", gen_prec), ("GenPanicSites", gen_panic_sites), ("GenPipeline", gen_pipeline), ("GenTopo", gen_topo), ("GenStages", gen_stages), ("GenTokens", gen_tokens), ("GenLegend", gen_legend), ("GenDecoders", gen_decoders)]
 
 
 def main():
